@@ -59,6 +59,27 @@ check(
     "symbolic execution (CrossHair+z3) of the real parser/decoder over solver-chosen fault placements and symbolic corrupt values",
     "DESIGN.md §5 C15",
 )
+check(
+    "C09",
+    "Bounded, solver-decided: valid event streams of pool documents are rewritten by a symbolic composition of meaning-preserving rewrites - prefix renaming through four naming schemes (incl. reusing ns0/ns1/xsi for other URIs) applied consistently inside xsi:type and QName-typed values, root namespace moved to the default namespace, reversed attribute order, symbolic white-space-only text/tails in element-only content, symbolic white space around non-string values, redundant redeclarations on a selector-chosen descendant - and parsed with both real handlers; the object must equal the parse of the original stream. get_base_url is checked against its documented rule.",
+    _SEAM_NOTE + " Comments, PIs, CDATA, character references, encodings and XInclude loading are resolved inside expat/libxml2 before the seam: outside.",
+    "symbolic execution (CrossHair+z3) of the real handlers/parser over symbolically rewritten event streams",
+    "DESIGN.md §5 C09",
+)
+check(
+    "C11",
+    "Bounded, solver-decided: generic trees (depth <= 2, fan-out <= 2, names from a 4-name pool, symbolic text / tail / attribute values) are parsed by the real TreeParser (both handlers; must equal what a ##any wildcard field captures) and, placed under single / list / mixed wildcard fields, parsed and re-serialized through the real WildcardNode / ElementNode / EventGenerator code: the re-serialized infoset must equal the input tree. Wildcard namespace modes (##any, ##other, ##local, ##targetNamespace, uri, list) are checked end to end against the documented rule.",
+    _SEAM_NOTE + " White-space-only text next to child elements is excepted by the property.",
+    "symbolic execution (CrossHair+z3) of the real generic-element parser and serializer over solver-chosen tree shapes and symbolic text",
+    "DESIGN.md §5 C11",
+)
+check(
+    "C14",
+    "Bounded-exhaustive, solver-driven: every history of <= 3 operations over a pool of 14 (serialize / parse / encode / decode, succeeding and failing, over models that share classes, use xsi:type lookups, wildcard namespace memos and user prefix maps) is applied to one shared XmlContext / NodeParser / EventGenerator / DictEncoder / DictDecoder and each call's outcome is compared with the same call on fresh instances. The history is a vector of symbolic selectors: CrossHair/z3 enumerate and prune it, nothing is value-symbolic (said so in the evidence).",
+    _SEAM_NOTE + " Longer histories are outside the bound.",
+    "solver-driven bounded-exhaustive enumeration of operation histories against the real code (selectors only)",
+    "DESIGN.md §5 C14",
+)
 for _p, _r in {
     "C07": "check not built yet", "C08": "check not built yet", "C09": "check not built yet", "C10": "check not built yet",
     "C11": "check not built yet", "C12": "check not built yet", "C14": "check not built yet", "C15": "check not built yet",
